@@ -96,6 +96,26 @@ def consumer(st):
     return ops.Noop() if (sum(map(ord, st["id"])) // 3) % 2 else Not
 
 
+def offer(b, st, port, op=None):
+    """(callable, name): the refused wire is handed to the builder through one of its entry points, chosen by the
+    statement's id (so that a replay takes the same one) -- a regression confined to one of them must not pass"""
+    from hugr import ops
+
+    op = ops.Noop() if op is None else op
+    v = (sum(map(ord, st["id"])) // 7) % 6
+    if v == 0:
+        return (lambda: b.add_op(op, port)), "add_op"
+    if v == 1:
+        return (lambda: b.add(op(port))), "add"
+    if v == 2:
+        return (lambda: b.extend(op(port))), "extend"
+    if v == 3:
+        return (lambda: b.add_nested(port)), "add_nested"
+    if v == 4:
+        return (lambda: b.add_op(ops.MakeTuple(), port)), "add_op(MakeTuple)"
+    return (lambda: b.add_tail_loop([], [port])), "add_tail_loop"
+
+
 def sites(prog):
     """enumerate (where, statement-or-function id, depth, extra) injection sites of a program"""
     out = []
@@ -226,7 +246,12 @@ def make_interp(kind, site):
                 self.skipped = "no foreign wire available"
                 return False
             self.injected = True
-            expect(lambda: b.add_op(ops.Noop(), port), NoSiblingAncestor, where_)
+            fn_, nm_ = offer(b, st, port)
+            COUNT["foreign-wire-through-" + nm_] = COUNT.get("foreign-wire-through-" + nm_, 0) + 1
+            # (entry points that ask for the wire's type first meet the root's own -- possibly unfinished -- operation
+            # before they look for a sibling: any refusal will do for a root-sourced wire there)
+            root_typed_first = "root node" in where_ and nm_ in ("add_nested", "add_tail_loop")
+            expect(fn_, Exception if root_typed_first else NoSiblingAncestor, where_.replace("add_op", nm_))
 
         def inj_foreign_wire_cfg(self, where, st, b=None, **kw):
             if where != "region":
@@ -236,7 +261,9 @@ def make_interp(kind, site):
                 self.skipped = "not in a block / no wire outside the CFG"
                 return False
             self.injected = True
-            expect(lambda: b.add_op(ops.Noop(), port), NotInSameCfg, "Block.add_op")
+            fn_, nm_ = offer(b, st, port)
+            COUNT["foreign-wire-cfg-through-" + nm_] = COUNT.get("foreign-wire-cfg-through-" + nm_, 0) + 1
+            expect(fn_, NotInSameCfg, "Block." + nm_)
 
         def inj_static_as_value(self, where, st, b=None, **kw):
             if where != "region":
@@ -256,7 +283,9 @@ def make_interp(kind, site):
                     expect(lambda: b.add_op(consumer(st), OutPort(src, -1)), ValueError, "add_op(order port)")
                     return
             c = b.add_const(val.TRUE, b.parent_node)
-            expect(lambda: b.add_op(consumer(st), c.out(0)), ValueError, "add_op(const port)")
+            fn_, nm_ = offer(b, st, c.out(0), consumer(st))
+            COUNT["const-port-through-" + nm_] = COUNT.get("const-port-through-" + nm_, 0) + 1
+            expect(fn_, ValueError, nm_ + "(const port)")
 
         def inj_static_port_of_another_block(self, where, st, b=None, **kw):
             # a constant that lives in ANOTHER block of the same CFG: the inter-block path of the Block builder must
@@ -338,7 +367,22 @@ def make_interp(kind, site):
             if where != "region":
                 return False
             self.injected = True
-            b.hugr.add_node(ops.MakeTuple() if sum(map(ord, st["id"])) % 2 else ops.LoadConst(), b.parent_node)
+            v = sum(map(ord, st["id"])) % 6
+            COUNT[f"incomplete-kind-{v}"] = COUNT.get(f"incomplete-kind-{v}", 0) + 1
+            if v == 0:
+                b.hugr.add_node(ops.MakeTuple(), b.parent_node)
+            elif v == 1:
+                b.hugr.add_node(ops.LoadConst(), b.parent_node)
+            elif v == 2:
+                b.hugr.add_node(ops.UnpackTuple(), b.parent_node)
+            elif v == 3:
+                b.hugr.add_node(ops.Noop(), b.parent_node)
+            elif v == 4:
+                b.hugr.add_node(ops.CallIndirect(), b.parent_node)
+            else:
+                # a conditional started with add_if whose else branch is never built
+                if_ = b.add_if(b.load(val.TRUE))
+                if_.set_outputs()
             raise Stop(b.hugr)
 
         # ---------------------------------------------------------------- conditional
@@ -558,13 +602,22 @@ def run_case(ctx, case, stratum="inject"):
         ctx.count("skipped:" + (it.skipped or "skip"))
         return None
     except Stop as s:
-        try:
-            s.hugr.to_json()
-            ok, expected, observed, where = False, "IncompleteOp", "serialized (silently accepted)", "to_json"
-        except IncompleteOp:
-            ok, expected, observed, where = True, "IncompleteOp", "IncompleteOp", "to_json"
-        except Exception as e:  # noqa: BLE001
-            ok, expected, observed, where = False, "IncompleteOp", f"{type(e).__name__}: {str(e)[:120]}", "to_json"
+        from hugr.package import Package
+
+        # every way of serializing: the HUGR's own JSON, the package's JSON, the package's envelope
+        routes = (("to_json", lambda: s.hugr.to_json()), ("Package.to_json", lambda: Package([s.hugr], []).to_json()),
+                  ("Package.to_bytes", lambda: Package([s.hugr], []).to_bytes()))
+        ok, expected, observed, where = True, "IncompleteOp", "IncompleteOp", "to_json"
+        for where_, fn_ in routes:
+            try:
+                fn_()
+                res = "serialized (silently accepted)"
+            except IncompleteOp:
+                continue
+            except Exception as e:  # noqa: BLE001
+                res = f"{type(e).__name__}: {str(e)[:120]}"
+            ok, observed, where = False, res, where_
+            break
     ctx.count("monitor:injection")
     ctx.count("kind:" + kind)
     for k2 in list(COUNT):
